@@ -200,8 +200,17 @@ func genScalarAPI(root *pkgSrc, outPath string) {
 		if n == "set" {
 			nm = "setRaw"
 		}
-		b.WriteString(translateWith(root.fset, "secp", fd, map[string]bool{}, map[string][]string{}, nm, api))
-		b.WriteString("\n")
+		// a method outside the accepted subset does not stop the others: its definition is simply absent, so exactly
+		// the ties (and properties) that mention it stop checking
+		func() {
+			defer func() {
+				if r := recover(); r != nil {
+					fmt.Fprintf(&b, "-- NOT TRANSLATED: Scalar.%s (%v)\n\n", n, strings.ReplaceAll(fmt.Sprint(r), "\n", " "))
+				}
+			}()
+			b.WriteString(translateWith(root.fset, "secp", fd, map[string]bool{}, map[string][]string{}, nm, api))
+			b.WriteString("\n")
+		}()
 	}
 	b.WriteString("end GenScalarAPI\n")
 	writeIfChanged(outPath, b.String())
